@@ -139,11 +139,12 @@ def gen_plan(rng):
         # the server is a jump host: it relays direct connections over an
         # SSH connection of its own to the server next to the destinations
         'jump': mode in ('local', 'socks') and rng.chance(25),
-        'bad_dest': {'delay': rng.below(8),
-                     'host': rng.choice(['x' * 64 + '.example', 'a..b',
-                                         'dest', 'de\0st']),
-                     'port': rng.choice([80, 80, 70000, 4294967295])}
-        if rng.chance(15) else None,
+        'bad_dest': rng.choice([
+            {'host': 'x' * 64 + '.example', 'port': 80},
+            {'host': 'a..b', 'port': 80}, {'host': 'de\0st', 'port': 80},
+            {'host': 'dest', 'port': 70000},
+            {'host': 'dest', 'port': 4294967295},
+            {'host': 'a..b', 'port': 70000}]) if rng.chance(15) else None,
     }
 
 
@@ -151,6 +152,23 @@ def valid_plan(plan):
     try:
         if plan['mode'] not in ('local', 'socks', 'remote', 'local_unix',
                                 'remote_unix'):
+            return False
+
+        bd = plan.get('bad_dest')
+
+        if bd is not None:
+            # (a destination the resolver call itself rejects: a bad label,
+            # a NUL, or a port that does not exist)
+            labels = bd['host'].rstrip('.').split('.')
+            bad_name = '\0' in bd['host'] or \
+                any(not 0 < len(x) < 64 for x in labels)
+
+            if not (bad_name or not 0 <= bd['port'] <= 65535) or \
+                    not 0 <= bd['port'] < 1 << 32 or \
+                    not 0 <= bd.get('delay', 0) <= 20:
+                return False
+
+        if plan.get('jump') and plan['mode'] not in ('local', 'socks'):
             return False
 
         for c in plan['conns']:
@@ -702,7 +720,7 @@ def run_plan(plan, sched_seed=None, sched_replay=None):
             async def bad_dest():
                 bd = plan['bad_dest']
 
-                for _ in range(bd['delay']):
+                for _ in range(bd.get('delay', 0)):
                     await sim.pause('bad-dest')
 
                 sim.probes['destination_resolver_rejects'] += 1
